@@ -57,7 +57,7 @@ def gen_case(rng, tier):
         state = g.leaf(eng, want_cols=rng.sample("abcd", rng.randint(1, 3)), allow_special=False)
         leaf_name = state[0][1]
         for _ in range(rng.randint(1, 3)):
-            op = rng.choice(["calc", "proj", "sel", "slice", "chain_self", "dedup"] if eng != "sql" else ["calc", "proj", "sel", "dedup"])
+            op = rng.choice(["calc", "proj", "sel", "slice", "chain_self", "dedup", "sort"] if eng != "sql" else ["calc", "proj", "sel", "dedup"])
             if op == "chain_self":
                 state = (["chain", state[0], state[0]], state[1], state[2])
             else:
